@@ -186,6 +186,21 @@ def compare(p1, p2):
     return [a == b, a < b, a <= b, a > b, a >= b, hash(a) == hash(b)]
 
 
+def not_equal_non_url():
+    u = URL("http://a/b")
+    others = ["http://a/b", b"http://a/b", None, 1, ("http", "a", "/b", "", ""), object(), ["http://a/b"]]
+    ok = all((u != o) and not (u == o) and not (o == u) for o in others)
+    for o in others:
+        for f in (lambda: u < o, lambda: u <= o, lambda: u > o, lambda: u >= o):
+            try:
+                f()
+                ok = False
+            except TypeError:
+                pass
+    return ok
+
+
 def register(fn):
+    fn(not_equal_non_url)
     fn(observe)
     fn(compare)
